@@ -268,7 +268,10 @@ Inductive spec :=
 | SBefore (s : spec)           (* "before:..." *)
 | STag (t : nat)               (* "tag:t<n>" *)
 | SAncestor (other : option revid)   (* "ancestor:<branch whose tip is other>" *)
-| SMainline (s : spec).        (* "mainline:..." *)
+| SMainline (s : spec)         (* "mainline:..." *)
+| SRevnoAt (n : Z) (other : option revid).
+                               (* "revno:n:<location of a branch whose tip is other>": the number is
+                                  resolved in THAT branch (RevisionSpec_revno._lookup opens it) *)
 
 (* RevisionInfo: (revno, rev_id); the revno may be absent (computed lazily) *)
 Definition info := (option nat * option revid)%type.
@@ -333,6 +336,7 @@ Fixpoint as_revision_id (b : branch) (s : spec) : result (option revid) :=
         end)
   | STag t => match tag_lookup t (br_tags b) with Some r => Ok (Some r) | None => Err NoSuchTag end
   | SAncestor o => bind (lookup_ancestor b o) (fun r => Ok (Some r))
+  | SRevnoAt n o => bind (lookup_revno (mkBr (br_g b) o (br_tags b)) n) (fun p => Ok (snd p))
   | SMainline s' =>
       bind (as_revision_id b s') (fun r =>
         match r with
@@ -382,6 +386,7 @@ Fixpoint match_on (b : branch) (s : spec) : result info :=
         end)
   | STag t => match tag_lookup t (br_tags b) with Some r => Ok (None, Some r) | None => Err NoSuchTag end
   | SAncestor o => bind (lookup_ancestor b o) (fun r => Ok (None, Some r))
+  | SRevnoAt n o => bind (lookup_revno (mkBr (br_g b) o (br_tags b)) n) (fun p => Ok (Some (fst p), snd p))
   | SMainline s' => bind (as_revision_id b (SMainline s')) (fun r => Ok (None, r))
   end.
 
@@ -440,7 +445,9 @@ Inductive step :=
 | QDotted (r : revid)          (* revision_id_to_dotted_revno *)
 | QId (d : revno)              (* dotted_revno_to_revision_id *)
 | QRevno (r : revid)           (* revision_id_to_revno *)
-| SetTip (t : option revid).   (* the branch tip moves *)
+| SetTip (t : option revid)    (* the branch tip moves (this Branch object, write-locked) *)
+| OtherTip (t : option revid). (* ANOTHER Branch object moves the tip while this one holds its read
+                                  lock: the reader keeps answering for the tip it saw first *)
 
 Fixpoint run_steps (g : dag) (tags : list (nat * revid)) (tip : option revid) (steps : list step) : list obs :=
   match steps with
@@ -453,6 +460,7 @@ Fixpoint run_steps (g : dag) (tags : list (nat * revid)) (tip : option revid) (s
       | QId d => ores orev (dotted_revno_to_revision_id b d) :: run_steps g tags tip rest
       | QRevno r => ores onat (revision_id_to_revno b (Some r)) :: run_steps g tags tip rest
       | SetTip t => OT "tip" :: run_steps g tags t rest
+      | OtherTip _ => OT "tip" :: run_steps g tags tip rest
       end
   end.
 Definition run_seq (g : dag) (tip : option revid) (tags : list (nat * revid)) (steps : list step) : obs :=
